@@ -15,6 +15,8 @@ import (
 	"io"
 	"log/slog"
 	"math/rand"
+	"runtime"
+	"strings"
 	"sync"
 	"sync/atomic"
 	"testing"
@@ -55,6 +57,8 @@ type c20In struct {
 	//     fails (no block on either side that outlives that service);
 	// 2 = accepted: the old incarnation stays connected and registered, the new one connects,
 	//     and while the responder is held the old one goes away (its registry entry is removed)
+	// 3 = (class 1) accepted: as 2, but the old incarnation goes away only after the responder has
+	//     finished the new handshake; the streams are opened after that
 	Prior int `json:"prior"`
 }
 
@@ -87,9 +91,30 @@ type c20KS struct {
 	delay time.Duration
 	mu    sync.Mutex
 	gate  chan struct{}
+	// onlyHandle: the node also runs handshakes as initiator (which calls GetAddress when it checks
+	// the first response); count and gate only the call made by handshake.Handle
+	onlyHandle bool
+}
+
+func c20CalledFromHandle() bool {
+	pcs := make([]uintptr, 32)
+	n := runtime.Callers(2, pcs)
+	frames := runtime.CallersFrames(pcs[:n])
+	for {
+		f, more := frames.Next()
+		if strings.HasSuffix(f.Function, "handshake.(*Service).Handle") {
+			return true
+		}
+		if !more {
+			return false
+		}
+	}
 }
 
 func (k *c20KS) GetAddress() common.Address {
+	if k.onlyHandle && !c20CalledFromHandle() {
+		return k.addr
+	}
 	k.calls.Add(1)
 	if k.delay > 0 {
 		time.Sleep(k.delay)
@@ -152,6 +177,12 @@ func c20Key(r *rand.Rand) *ecdsa.PrivateKey {
 }
 
 var c20Desc = p2p.StreamDesc{Name: "c20verif", Version: "1.0.0"}
+
+// c20PendingBound (x VERIF_SLOW): how long after the last release / open a stream may still be
+// unfinished before it is observed as pending.  Nothing holds the responder back at that point, so
+// on an unchanged tree the wait ends within milliseconds; the bound only has to exceed what a
+// heavily loaded machine running a dozen cases at once can need.
+const c20PendingBound = 60 * time.Second
 
 // c20Until polls cond until it holds or the limit expires.
 func c20Until(limit time.Duration, cond func() bool) bool {
@@ -330,7 +361,7 @@ func c20RunMutual(t *testing.T, e *vfEnv, class string, in c20In, keyRng *rand.R
 		}
 		unlock()
 	}
-	c20Until(5*time.Second*slow, func() bool { return streamsDone.Load() >= int64(in.Streams) || !obs.ConnectOK })
+	c20Until(c20PendingBound*slow, func() bool { return streamsDone.Load() >= int64(in.Streams) || !obs.ConnectOK })
 	scancel()
 	wg.Wait()
 	select {
@@ -377,9 +408,182 @@ func c20RunMutual(t *testing.T, e *vfEnv, class string, in c20In, keyRng *rand.R
 	})
 }
 
+// c20RunCross realises class 4: both nodes call Connect towards each other at the same time.  With
+// DelayMs == 0 both responder-role GetAddress calls are gated until the streams have been opened
+// (and HoldMs has passed); otherwise they sleep DelayMs.  Both nodes then open streams to the other.
+func c20RunCross(t *testing.T, e *vfEnv, class string, in c20In, keyRng *rand.Rand) {
+	slow := time.Duration(e.Slow)
+	limit := 20 * time.Second * slow
+	types := [2]int{in.IType, in.RType}
+	var svc [2]*Service
+	var ks [2]*c20KS
+	var seen [2]*c20Seen
+	var info [2][]byte
+	for x := 0; x < 2; x++ {
+		k := c20Key(keyRng)
+		a := crypto.PubkeyToAddress(k.PublicKey)
+		ks[x] = &c20KS{MockKeySigner: mockkeysigner.NewMockKeySigner(k, a), addr: a, gate: make(chan struct{}), onlyHandle: true}
+		if in.DelayMs > 0 {
+			ks[x].delay = time.Duration(in.DelayMs) * time.Millisecond
+			ks[x].open()
+		}
+		s, err := New(&Options{KeySigner: ks[x], Secret: "c20", ListenPort: 0, ListenAddr: "127.0.0.1",
+			PeerType: p2p.PeerType(types[x]), Register: &c20Reg{ans: true}, MetricsReg: prometheus.NewRegistry(),
+			Logger: slog.New(slog.NewTextHandler(io.Discard, &slog.HandlerOptions{Level: slog.LevelError}))})
+		if err != nil {
+			t.Errorf("c20: cross: %v", err)
+			return
+		}
+		svc[x] = s
+		defer s.Close()
+		defer ks[x].open()
+		sn := &c20Seen{m: map[string]p2p.Peer{}}
+		seen[x] = sn
+		desc := c20Desc
+		desc.Handler = func(ctx context.Context, from p2p.Peer, str p2p.Stream) error {
+			msg := new(wrapperspb.StringValue)
+			if err := str.ReadMsg(ctx, msg); err != nil {
+				return err
+			}
+			sn.mu.Lock()
+			sn.m[msg.Value] = from
+			sn.mu.Unlock()
+			return str.WriteMsg(ctx, &wrapperspb.StringValue{Value: "ack:" + msg.Value})
+		}
+		s.AddStreamHandlers(desc)
+		info[x], _ = peer.AddrInfo{ID: s.host.ID(), Addrs: s.host.Addrs()}.MarshalJSON()
+	}
+	ctx, cancel := context.WithTimeout(context.Background(), limit)
+	defer cancel()
+	sctx, scancel := context.WithCancel(context.Background())
+	defer scancel()
+
+	var obs [2]c20Obs
+	var peers [2]p2p.Peer
+	var errs [2]error
+	var cwg sync.WaitGroup
+	for x := 0; x < 2; x++ {
+		obs[x].Streams = make([]c20Stream, in.Streams)
+		for k := range obs[x].Streams {
+			obs[x].Streams[k] = c20Stream{Res: "pending"}
+		}
+		cwg.Add(1)
+		go func(x int) {
+			defer cwg.Done()
+			peers[x], errs[x] = svc[x].Connect(ctx, info[1-x])
+		}(x)
+	}
+	cwg.Wait()
+	var wg sync.WaitGroup
+	var streamsDone atomic.Int64
+	var obsMu sync.Mutex
+	total := int64(0)
+	for x := 0; x < 2; x++ {
+		obs[x].ConnectOK = errs[x] == nil
+		if errs[x] != nil {
+			obs[x].ConnectErr = errs[x].Error()
+			continue
+		}
+		for k := 0; k < in.Streams; k++ {
+			total++
+			wg.Add(1)
+			go func(x, k int) {
+				defer wg.Done()
+				defer streamsDone.Add(1)
+				key := fmt.Sprintf("x-%d-%d", x, k)
+				res := c20Stream{Res: "refused"}
+				defer func() {
+					obsMu.Lock()
+					obs[x].Streams[k] = res
+					obsMu.Unlock()
+				}()
+				str, err := svc[x].NewStream(sctx, peers[x], nil, c20Desc)
+				if err == nil {
+					err = str.WriteMsg(sctx, &wrapperspb.StringValue{Value: key})
+					if err == nil {
+						reply := new(wrapperspb.StringValue)
+						err = str.ReadMsg(sctx, reply)
+						if err == nil && reply.Value != "ack:"+key {
+							err = errors.New("unexpected reply " + reply.Value)
+						}
+					}
+					_ = str.Close()
+				}
+				if err != nil {
+					res.Err = err.Error()
+					if errors.Is(err, context.DeadlineExceeded) || errors.Is(err, context.Canceled) {
+						res.Res = "pending"
+					}
+					return
+				}
+				seen[1-x].mu.Lock()
+				p, ok := seen[1-x].m[key]
+				seen[1-x].mu.Unlock()
+				if !ok {
+					res.Err = "reply without handler record"
+					return
+				}
+				res = c20Stream{Res: "handled", Addr: common.Bytes2Hex(p.EthAddress.Bytes()), Type: int(p.Type)}
+			}(x, k)
+		}
+	}
+	if in.DelayMs == 0 {
+		c20Until(300*time.Millisecond*slow+time.Duration(in.HoldMs)*time.Millisecond,
+			func() bool { return streamsDone.Load() >= total && total > 0 })
+		early := int(streamsDone.Load())
+		obs[0].Early, obs[1].Early = early, early
+		ks[0].open()
+		ks[1].open()
+	}
+	c20Until(time.Duration(in.DelayMs)*time.Millisecond+c20PendingBound*slow, func() bool { return streamsDone.Load() >= total })
+	scancel()
+	wg.Wait()
+	for x := 0; x < 2; x++ {
+		o := obs[x]
+		o.GA = int(ks[1-x].calls.Load())
+		retAddr, retType := peers[x].EthAddress.Bytes(), int(peers[x].Type)
+		outs := []string{}
+		if !o.ConnectOK {
+			retAddr, retType = nil, 0
+			o.Streams = nil
+		}
+		for _, st := range o.Streams {
+			switch st.Res {
+			case "handled":
+				ty := st.Type
+				if ty < 0 {
+					ty = 99
+				}
+				outs = append(outs, coqApp("SHandled", coqBytes(common.Hex2Bytes(st.Addr)), coqN(uint64(ty))))
+			case "refused":
+				outs = append(outs, "SRefused")
+			default:
+				outs = append(outs, "SPending")
+			}
+		}
+		x := x
+		e.Emit(class, in, o, func(id int) string {
+			return coqRecord("id", coqN(uint64(id)),
+				"klass", coqN(4), "nstreams", coqN(uint64(in.Streams)), "ninit", coqN(1),
+				"i_addr", coqBytes(svc[x].ethAddress.Bytes()), "i_type", coqN(uint64(types[x])), "i_staked", coqBool(true),
+				"r_addr", coqBytes(svc[1-x].ethAddress.Bytes()), "r_type", coqN(uint64(types[1-x])), "r_staked", coqBool(true),
+				"r_ks_ok", coqBool(true),
+				"prior", coqN(0), "prior_ok", coqBool(false), "conn_close_other", coqBool(false),
+				"connect_ok", coqBool(o.ConnectOK),
+				"ret_addr", coqBytes(retAddr), "ret_type", coqN(uint64(retType)),
+				"early", coqN(0), "reg_at_gate", coqBool(false),
+				"outcomes", coqList(outs), "ga", coqN(uint64(o.GA)))
+		})
+	}
+}
+
 func c20RunCase(t *testing.T, e *vfEnv, class string, in c20In, keyRng *rand.Rand) {
 	if in.Klass == 3 {
 		c20RunMutual(t, e, class, in, keyRng)
+		return
+	}
+	if in.Klass == 4 {
+		c20RunCross(t, e, class, in, keyRng)
 		return
 	}
 	slow := time.Duration(e.Slow)
@@ -609,7 +813,7 @@ func c20RunCase(t *testing.T, e *vfEnv, class string, in c20In, keyRng *rand.Ran
 			}
 		}
 	}()
-	if in.Klass == 0 && in.Prior != 0 {
+	if (in.Klass == 0 && (in.Prior == 1 || in.Prior == 2)) || (in.Klass == 1 && in.Prior == 3) {
 		for j := range inis {
 			o, err := New(&Options{
 				KeySigner:  mockkeysigner.NewMockKeySigner(iKeys[j], crypto.PubkeyToAddress(iKeys[j].PublicKey)),
@@ -617,7 +821,7 @@ func c20RunCase(t *testing.T, e *vfEnv, class string, in c20In, keyRng *rand.Ran
 				ListenPort: 0,
 				ListenAddr: "127.0.0.1",
 				PeerType:   p2p.PeerType(in.IType),
-				Register:   &c20Reg{ans: in.Prior == 2},
+				Register:   &c20Reg{ans: in.Prior != 1},
 				MetricsReg: prometheus.NewRegistry(),
 				Logger:     slog.New(slog.NewTextHandler(io.Discard, &slog.HandlerOptions{Level: slog.LevelError})),
 			})
@@ -645,7 +849,9 @@ func c20RunCase(t *testing.T, e *vfEnv, class string, in c20In, keyRng *rand.Ran
 				})
 			}
 		}
-		rks.arm()
+		if in.Klass == 0 {
+			rks.arm()
+		}
 	}
 
 	// ---- connect (all initiators concurrently) -------------------------------------------
@@ -752,6 +958,28 @@ func c20RunCase(t *testing.T, e *vfEnv, class string, in c20In, keyRng *rand.Ran
 				c20Until(limit/2, func() bool { return responderFinished(j) })
 			}
 		}
+		if in.Prior == 3 {
+			// the responder has passed GetAddress for the new handshake; give its handler the
+			// chance to record the new connection (two tracked connections), then the old
+			// incarnation goes away and its disconnect is processed
+			c20Until(limit/2, func() bool { return int(rks.calls.Load()-gaStart) >= okCount })
+			for j := range inis {
+				if olds[j] == nil {
+					continue
+				}
+				j := j
+				c20Until(2*time.Second*slow, func() bool {
+					rsp.peers.mu.RLock()
+					defer rsp.peers.mu.RUnlock()
+					return len(rsp.peers.connections[inis[j].host.ID()]) >= 2
+				})
+				before := connsAtResponder(j)
+				_ = olds[j].Close()
+				olds[j] = nil
+				c20Until(limit/4, func() bool { return connsAtResponder(j) < before })
+			}
+			time.Sleep(400 * time.Millisecond * slow)
+		}
 		for j := range inis {
 			if conn[j].err == nil {
 				openAll(j)
@@ -760,7 +988,7 @@ func c20RunCase(t *testing.T, e *vfEnv, class string, in c20In, keyRng *rand.Ran
 	}
 	// every stream has been opened and nothing holds the responder back any more: a stream that
 	// has not ended within the bound is observed as pending
-	c20Until(time.Duration(in.DelayMs)*time.Millisecond+5*time.Second*slow,
+	c20Until(time.Duration(in.DelayMs)*time.Millisecond+c20PendingBound*slow,
 		func() bool { return streamsDone.Load() >= totalStreams })
 	scancel()
 	wg.Wait()
@@ -859,7 +1087,7 @@ func TestVerifC20(t *testing.T) {
 	// long hold: the responder is kept between the final read and the registration for seconds
 	// while a stream opened right after Connect returned waits.  These cases have their own
 	// services and run concurrently with everything below, so the run grows by about the hold.
-	holdA, holdB := 4500, 3500
+	holdA, holdB := 6000, 3500
 	secondConn := []c20In{
 		mk(func(in *c20In) { in.SecondConn = 1 }),
 		mk(func(in *c20In) { in.SecondConn = 2; in.Streams = 2; in.IType = provider }),
@@ -894,6 +1122,8 @@ func TestVerifC20(t *testing.T) {
 		{"retry-after-failed-handshake", mk(func(in *c20In) { in.Prior = 1; in.Streams = 2; in.IType = provider })},
 		{"reconnect-old-closes", mk(func(in *c20In) { in.Prior = 2 })},
 		{"reconnect-old-closes", mk(func(in *c20In) { in.Prior = 2; in.Streams = 2; in.IType = provider; in.HoldMs = 800 })},
+		{"reconnect-then-old-closes", mk(func(in *c20In) { in.Klass = 1; in.Prior = 3; in.Streams = 2 })},
+		{"reconnect-then-old-closes", mk(func(in *c20In) { in.Klass = 1; in.Prior = 3; in.IType = provider; in.Sequential = true; in.Streams = 3 })},
 	}
 	for i, c := range earlier {
 		lh.Add(1)
@@ -917,6 +1147,29 @@ func TestVerifC20(t *testing.T) {
 		go func(i int, in c20In) {
 			defer lh.Done()
 			c20RunCase(t, e, "mutual-dial", in, rand.New(rand.NewSource(e.Seed*49979687+int64(i)+1)))
+		}(i, in)
+	}
+	// cross dial: both nodes call Connect at the same time (two handshakes in opposite directions)
+	cross := []c20In{
+		mk(func(in *c20In) { in.Klass = 4; in.Streams = 2 }),
+		mk(func(in *c20In) { in.Klass = 4; in.Streams = 2; in.DelayMs = 50; in.IType = provider }),
+		mk(func(in *c20In) { in.Klass = 4; in.Streams = 1; in.DelayMs = 1 }),
+	}
+	if e.Tier != "quick" {
+		for i := 0; i < 8; i++ {
+			cross = append(cross, mk(func(in *c20In) {
+				in.Klass = 4
+				in.Streams = 1 + i%3
+				in.DelayMs = []int{0, 1, 5, 20, 100, 300, 0, 2}[i]
+				in.HoldMs = 200 * (i % 2)
+			}))
+		}
+	}
+	for i, in := range cross {
+		lh.Add(1)
+		go func(i int, in c20In) {
+			defer lh.Done()
+			c20RunCase(t, e, "cross-dial", in, rand.New(rand.NewSource(e.Seed*67867967+int64(i)+1)))
 		}(i, in)
 	}
 	for i, in := range secondConn {
